@@ -799,7 +799,7 @@ func judgeCase(rec *caseRecord, sum *jSummary) {
 				if q := firstQuoted(d.Message); q != "" && isValueDiag(d.Code, d.Message) && d.Covered != q {
 					add("C18", fmt.Sprintf("diagnostic about the value %q covers the text %q: %s", q, d.Covered, where))
 				}
-				k := strings.Join(d.Entity, "/") + "|" + d.Code + "|" + d.Message + "|" + fmt.Sprint(d.Range)
+				k := strings.Join(d.Entity, "/") + "|" + d.File + "|" + d.Code + "|" + d.Message + "|" + fmt.Sprint(d.Range) // (same-named controllers of two packages are two entities)
 				if seen[k] {
 					add("C18", "diagnostic reported twice: "+where)
 				}
